@@ -71,7 +71,7 @@ class C11Engine(Engine):
                    'the namespace doc is placed in exactly one file of the namespace',
                    'a byte difference is reported only if it persists across repeated in-process runs '
                    'with perturbed heaps (address-order instability belongs to C12)']
-    expected_probes = ['channel_argv', 'channel_recursive', 'channel_stdin', 'multi_file_namespace',
+    expected_probes = ['doc_law_checked', 'channel_argv', 'channel_recursive', 'channel_stdin', 'multi_file_namespace',
                        'noise_lines', 'continuation_lines', 'error_model', 'backend_bytes_compared',
                        'listing_order_differs']
 
@@ -198,6 +198,8 @@ class C11Engine(Engine):
                 ref_trees[i] = (r['status'], r['tree'])
                 res['steps'] += 1
 
+        if ref_ok and not err_kind:
+            self._doc_law(tape, model, res)
         nsched = tape.rng(4, 10)
         main_tape = tape
         sch = None
@@ -282,6 +284,43 @@ class C11Engine(Engine):
         res['sample'] = {'files': [fn for fn, _ in ref_files], 'error_model': err_kind,
                          'schedules': nsched, 'backends': [c[0] for c in chosen],
                          'last_schedule': sch.shape if sch is not None else None}
+
+    def _doc_law(self, tape, model, res):
+        """The one documented file-order dependence: namespace docs concatenate in file order."""
+        from stone.frontend.frontend import specs_to_ir
+        from stone.frontend.exception import InvalidSpec
+        ns = list(model.namespaces.values())[tape.draw(len(model.namespaces))]
+        saved = ns.doc
+        try:
+            ns.doc = None
+            rest = specgen.render_reference(model)
+        finally:
+            ns.doc = saved
+        docs = [tape.choice(['First part of the doc.', 'About {braces} and %s.', 'Alpha.', 'Zulu comes first?']),
+                tape.choice(['Second part.', 'Beta: more text here.', 'Another paragraph, naïve.']),
+                'Third.'][:tape.rng(2, 3)]
+        parts = [('doc%d_%s.stone' % (i, ns.name), 'namespace %s\n    "%s"\n' % (ns.name, d))
+                 for i, d in enumerate(docs)]
+        order = tape.shuffle(list(range(len(parts))))
+        try:
+            single = []
+            for p in parts:
+                api = specs_to_ir([p] + rest)
+                single.append(api.namespaces[ns.name].doc)
+            api = specs_to_ir([parts[i] for i in order] + rest)
+            got = api.namespaces[ns.name].doc
+            api2 = specs_to_ir(rest[:1] + [parts[i] for i in order] + rest[1:])
+            got2 = api2.namespaces[ns.name].doc
+        except InvalidSpec:
+            return
+        want = ''.join(single[i] for i in order)
+        res['events'].append('doc-law order=%r ok=%s' % (order, got == want))
+        bump(res['probes'], 'doc_law_checked')
+        if got != want or got2 != want:
+            res['violations'].append({
+                'class': 'doc-order', 'key': 'namespace-doc-concatenation',
+                'detail': 'namespace docs of files in order %r: got %r / %r, expected the per-file docs '
+                          'concatenated in file order %r' % (order, got, got2, want)})
 
     def _confirm(self, scratch, tag, i, bs, ref_files, sch, tape):
         """A byte difference counts only if both layouts are stable under heap perturbation."""
